@@ -174,7 +174,7 @@ func judgeResults(w *world, end *faults.End, honest []party.ID) [][2]string {
 		}
 	case "presign":
 		// a presignature is correct if it validates and all honest holders agree on R
-		var R []byte
+		var R, presigID []byte
 		for _, id := range done {
 			p, ok := end.Parties[id].Result.(*ecdsa.PreSignature)
 			if !ok || p == nil {
@@ -189,6 +189,12 @@ func judgeResults(w *world, end *faults.End, honest []party.ID) [][2]string {
 				R = b
 			} else if !bytes.Equal(R, b) {
 				out = append(out, [2]string{"different-presignature-R", "honest parties hold presignatures with different R"})
+			}
+			// the identifier names the presignature in the online phase (it enters the session tag): all holders must agree
+			if presigID == nil {
+				presigID = append([]byte{}, p.ID...)
+			} else if !bytes.Equal(presigID, p.ID) {
+				out = append(out, [2]string{"different-presignature-ids", "honest parties hold presignatures with different identifiers (their online sessions would not recognise each other)"})
 			}
 		}
 	case "keygen", "refresh":
